@@ -111,6 +111,18 @@ def _mod_collections(it, m):
         return make_namedtuple(name, fields)
     m.ns['namedtuple'] = namedtuple
 
+    @_builtin('deque')
+    def deque(it, args, kw, n):
+        # deque(iterable, maxlen=k): the iterable is consumed to its end, the last k items are kept
+        maxlen = kw.get('maxlen', args[1] if len(args) > 1 else None)
+        lst = it.builtins['list'].impl(it, list(args[:1]), {}, n)
+        if maxlen is None:
+            return lst
+        if isinstance(maxlen, int) and maxlen == 0:
+            return PList()
+        raise Unsupported('deque with a positive maxlen')
+    m.ns['deque'] = deque
+
 
 def _mod_enum(it, m):
     for n, k in (('Enum', 'enum'), ('Flag', 'flag'), ('IntFlag', 'intflag'), ('IntEnum', 'intenum')):
@@ -178,6 +190,11 @@ def _mod_struct(it, m):
         order, fields = _fmt_fields(fmt)
         if order not in '<>':
             raise Unsupported('native struct alignment')
+        if type(buf).__name__ == 'BuiltInt':
+            # the bytes of IntNul.build(v): byte i is (v div 256^i) mod 256
+            from .construct_parse import BuiltFile
+            bf = BuiltFile(buf.v, buf.size, it)
+            buf = SBytes([mk_int(bf.byte(i)) for i in range(buf.size)])
         if isinstance(buf, (bytes, SBytes)):
             elems = list(buf) if isinstance(buf, bytes) else list(buf.elems)
             if len(elems) != size:
@@ -221,9 +238,50 @@ def _mod_struct(it, m):
                     out.append(mk_int(v))
                 off += sz
             return tuple(out)
-        raise PyExc('TypeError', 'a bytes-like object is required', site=(getattr(n, 'lineno', None), 'type'), kind='type')
+        if buf is None or isinstance(buf, (int, str, SInt, SStr, PList, PDict, tuple)):
+            raise PyExc('TypeError', 'a bytes-like object is required', site=(getattr(n, 'lineno', None), 'type'), kind='type')
+        raise Unsupported('struct.unpack of %s' % type(buf).__name__)
     m.ns['calcsize'] = calcsize
     m.ns['unpack'] = unpack
+
+    @_builtin('pack')
+    def pack(it, args, kw, n):
+        fmt = args[0]
+        if not isinstance(fmt, str):
+            raise Unsupported('symbolic struct format')
+        vals = list(args[1:])
+        if all(isinstance(v, (int, bytes)) and not isinstance(v, bool) for v in vals):
+            try:
+                return _struct.pack(fmt, *vals)
+            except _struct.error:
+                raise PyExc('struct.error', 'pack', site=(getattr(n, 'lineno', None), 'struct'), kind='struct')
+        order, fields = _fmt_fields(fmt)
+        if order not in '<>':
+            raise Unsupported('native struct alignment')
+        out = []
+        k = 0
+        for c, sz in fields:
+            if c == 'x':
+                out += [0] * sz
+                continue
+            if k >= len(vals):
+                raise PyExc('struct.error', 'pack expected more items', site=(getattr(n, 'lineno', None), 'struct'), kind='struct')
+            v = vals[k]
+            k += 1
+            if c == 's':
+                if isinstance(v, bytes):
+                    out += list(v[:sz].ljust(sz, b'\0'))
+                    continue
+                raise Unsupported('struct.pack of symbolic bytes')
+            try:
+                b = libattr.int_to_bytes(it, v, [sz, 'little' if order == '<' else 'big'], {'signed': c.islower()}, n)
+            except PyExc:
+                raise PyExc('struct.error', 'argument out of range', site=(getattr(n, 'lineno', None), 'struct'), kind='struct')
+            out += list(b) if isinstance(b, bytes) else list(b.elems)
+        if k != len(vals):
+            raise PyExc('struct.error', 'pack expected fewer items', site=(getattr(n, 'lineno', None), 'struct'), kind='struct')
+        return bytes(out) if all(isinstance(x, int) for x in out) else SBytes(out)
+    m.ns['pack'] = pack
 
     class StructVal:
         """struct.Struct(fmt): the compiled form of a format; unpack / unpack_from / size / format delegate to the module functions"""
@@ -248,6 +306,8 @@ def _mod_struct(it, m):
                     part = libattr.getslice(it2, buf, off, off + self.size, None, n)
                     return unpack.impl(it2, [self.fmt, part], {}, n)
                 return Builtin('Struct.unpack_from', unpack_from)
+            if name == 'pack':
+                return Builtin('Struct.pack', lambda it2, a, k, n: pack.impl(it2, [self.fmt] + list(a), {}, n))
             raise Unsupported('attribute %s of struct.Struct' % name)
 
     @_builtin('Struct')
@@ -511,6 +571,37 @@ def _mod_pygments(it, m):
 
 def _mod_termcolor(it, m):
     m.ns['$opaque'] = True
+
+
+def _mod_operator(it, m):
+    @_builtin('attrgetter')
+    def attrgetter(it, args, kw, n):
+        names = list(args)
+        if not names or not all(isinstance(a, str) for a in names):
+            raise Unsupported('attrgetter of a symbolic name')
+
+        def one(it2, obj, nm, node):
+            for part in nm.split('.'):
+                obj = libattr.getattr_(it2, obj, part, node)
+            return obj
+
+        def get(it2, a, k, node):
+            if len(names) == 1:
+                return one(it2, a[0], names[0], node)
+            return tuple(one(it2, a[0], nm, node) for nm in names)
+        return Builtin('attrgetter(%s)' % ','.join(names), get)
+
+    @_builtin('itemgetter')
+    def itemgetter(it, args, kw, n):
+        keys = list(args)
+
+        def get(it2, a, k, node):
+            if len(keys) == 1:
+                return libattr.getitem(it2, a[0], keys[0], node)
+            return tuple(libattr.getitem(it2, a[0], kk, node) for kk in keys)
+        return Builtin('itemgetter', get)
+    m.ns['attrgetter'] = attrgetter
+    m.ns['itemgetter'] = itemgetter
 
 
 def _mod_sys(it, m):
